@@ -27,6 +27,7 @@ type Gen struct {
 	PExoticNames  int
 	PMalformed    int // share of byte-soup argv
 	PSingleLetter int
+	PClean        int // share of argv made only of valid option uses, commands and words
 	Kinds         []int
 	Modes         []int
 	UModes        []int
@@ -347,7 +348,79 @@ func (g *Gen) spell(key string, mode int, attach bool, val string) string {
 	return dash + key
 }
 
+// cleanValue - a value text that converts for the kind
+func (g *Gen) cleanValue(o OptDef) string {
+	if len(o.Valid) > 0 {
+		return o.Valid[g.r.Intn(len(o.Valid))]
+	}
+	switch o.Kind {
+	case KInt, KIntOpt, KIntRep:
+		return []string{"0", "1", "-1", "42", "+7", "007"}[g.r.Intn(6)]
+	case KFloat, KFloatOpt, KFloatRep:
+		return []string{"0", "1.5", "-2.25", "1e3", ".5", "inf"}[g.r.Intn(6)]
+	case KMap:
+		return []string{"k=v", "a=b", "k=", "x=1", "k=a=b"}[g.r.Intn(5)]
+	}
+	return []string{"foo", "bar", "a b", "x", "-neg", "k=v", "é"}[g.r.Intn(7)]
+}
+
+// GenCleanArgv - option uses that parse, commands, words: most of these reach Dispatch
+func (g *Gen) GenCleanArgv(p *ProgDef) []string {
+	path := []*CmdDef{p.Root}
+	out := []string{}
+	n := g.r.Intn(g.MaxArgv + 1)
+	terminated := false
+	for len(out) < n {
+		cur := path[len(path)-1]
+		vis := visibleOpts(path, p)
+		roll := g.r.Intn(100)
+		switch {
+		case roll < 50 && len(vis) > 0 && !terminated:
+			o := vis[g.r.Intn(len(vis))]
+			ks := optKeys(o)
+			key := ks[g.r.Intn(len(ks))]
+			if key == "-" {
+				continue
+			}
+			switch {
+			case o.Kind <= KIncr:
+				out = append(out, "--"+key)
+			case o.Kind >= KStrRep:
+				out = append(out, "--"+key)
+				for i := 0; i < o.Min; i++ {
+					v := g.cleanValue(o)
+					if v == "-neg" {
+						v = "neg"
+					}
+					out = append(out, v)
+				}
+			default:
+				out = append(out, "--"+key+"="+g.cleanValue(o))
+			}
+		case roll < 75 && len(cur.Cmds) > 0 && !terminated:
+			c := cur.Cmds[g.r.Intn(len(cur.Cmds))]
+			out = append(out, c.Name)
+			path = append(path, c)
+		case roll < 80 && p.Help && !terminated:
+			if g.pct(50) {
+				out = append(out, "--"+p.HelpName)
+			} else {
+				out = append(out, p.HelpName)
+			}
+		case roll < 84:
+			out = append(out, "--")
+			terminated = true
+		default:
+			out = append(out, g.pick(wordPool))
+		}
+	}
+	return out
+}
+
 func (g *Gen) GenArgv(p *ProgDef) []string {
+	if g.pct(g.PClean) {
+		return g.GenCleanArgv(p)
+	}
 	if g.pct(g.PMalformed) {
 		n := g.r.Intn(g.MaxArgv + 1)
 		out := []string{}
